@@ -13,3 +13,13 @@ open Frp.C10
 #print axioms sessionEnd_frees_names
 #print axioms port_released_on_close
 #print axioms port_kept_on_failure
+#print axioms Conc.inv_reachable
+#print axioms Conc.quota_exact_idle
+#print axioms Conc.begin_refused_unchanged
+#print axioms Conc.step_failure_releases
+#print axioms Conc.run_conflict_restores
+#print axioms Conc.close_spec
+#print axioms Conc.sessionEnd_spec
+#print axioms Conc.retry_succeeds
+#print axioms Conc.quiescent_clean
+#print axioms Conc.accounted_sound
